@@ -160,7 +160,7 @@ const (
 
 func (as ActionSet) Get(rel string) (*Action, error) {
 	a, ok := as[rel]
-	if !ok {
+	if !ok || a == nil {
 		return nil, nil
 	}
 
